@@ -155,14 +155,16 @@ class Fold:
             prefixes.append("and" if ch[0][0].startswith("positive") else "not")
             ch = ch[1:]
         # node
-        if ch[0][0] == "opening_paren":
+        grouped = ch[0][0] == "opening_paren"
+        if grouped:
             node = self.expression(ch[1])
             ch = ch[3:]
         else:
             node = self.terminal(ch[0])
             ch = ch[1:]
         if tag is not None:
-            node = {"k": "tag", "t": tag, "e": node}
+            # a tag written on a parenthesised term sits on the group, whatever is inside ("grp"); GAST itself has no groups
+            node = {"k": "tag", "t": tag, "e": node, **({"grp": True} if grouped else {})}
         for c in ch:
             k = c[0]
             nums = [int(self.s(x)) for x in c[3] if x[0] == "number"]
